@@ -101,8 +101,11 @@ def _class_source(op, av):
     raise Unsupported(op)
 
 
-def class_ranges(op, av, flags):
+def class_ranges(op, av, flags, maxcp=None):
     """Exact set of code points (<= MAXCHAR) matched by a one-character node, from the real engine."""
+    if maxcp is not None:
+        full = class_ranges(op, av, flags)
+        return [(lo, min(hi, maxcp)) for lo, hi in full if lo <= maxcp]
     src = _class_source(op, av)
     key = (src, flags & (re.I | re.S | re.A | re.U | re.M))
     if key in _CLASS_CACHE:
@@ -133,8 +136,12 @@ class Translator:
         else:
             self.src = pattern.pattern
             self.flags = pattern.flags
+        self.maxcp = None
         if isinstance(self.src, bytes):
-            raise Unsupported("bytes pattern")
+            # bytes pattern: byte b <-> character chr(b) (Latin-1 view); classes are ASCII-defined (re.A), alphabet 0..255
+            self.src = self.src.decode("latin-1")
+            self.flags = (self.flags | re.A) & ~re.U
+            self.maxcp = 255
         self.tree = sre_parse.parse(self.src, self.flags & ~re.U if False else self.flags)
         self.flags = self.tree.state.flags | self.flags
         self.groups = {}
@@ -183,7 +190,7 @@ class Translator:
 
     def node(self, op, av, top=False):
         if op in (sre_c.LITERAL, sre_c.NOT_LITERAL, sre_c.ANY, sre_c.IN, sre_c.CATEGORY):
-            return _ranges_to_re(class_ranges(op, av, self.flags))
+            return _ranges_to_re(class_ranges(op, av, self.flags, self.maxcp))
         if op is sre_c.BRANCH:
             alts = [self.seq(p, top) for p in av[1]]
             return z3.Union(*alts) if len(alts) > 1 else alts[0]
@@ -209,6 +216,61 @@ class Translator:
     def language(self):
         """Strings s with pattern.fullmatch(s)."""
         return self.seq(self.tree, top=True)
+
+    def alphabet_star(self):
+        return z3.Star(_ranges_to_re([(0, self.maxcp if self.maxcp is not None else MAXCHAR)]))
+
+    def search_language(self):
+        """Strings s with pattern.search(s) — for un-anchored patterns.  A negative look-ahead of ONE character at the
+        very end of an alternative (`X(?![ab])`) is expanded: X at the end of the string, or X followed by a character
+        outside the set."""
+        sig = self.alphabet_star()
+        items = list(self.tree)
+        alts = [items]
+        if len(items) == 1 and items[0][0] is sre_c.BRANCH:
+            alts = [list(p) for p in items[0][1][1]]
+        out = []
+        for alt in alts:
+            if alt and alt[-1][0] is sre_c.ASSERT_NOT:
+                direction, sub = alt[-1][1]
+                sub = list(sub)
+                if direction != 1 or len(sub) != 1 or sub[0][0] not in (sre_c.IN, sre_c.LITERAL):
+                    raise Unsupported("look-ahead shape")
+                inside = class_ranges(sub[0][0], sub[0][1], self.flags, self.maxcp)
+                top = self.maxcp if self.maxcp is not None else MAXCHAR
+                neg = []
+                prev = 0
+                for lo, hi in inside:
+                    if lo > prev:
+                        neg.append((prev, lo - 1))
+                    prev = hi + 1
+                if prev <= top:
+                    neg.append((prev, top))
+                body = self.seq(alt[:-1])
+                out.append(z3.Concat(sig, body))
+                out.append(z3.Concat(sig, body, _ranges_to_re(neg), sig))
+            else:
+                for op, av in alt:
+                    if op in (sre_c.ASSERT, sre_c.ASSERT_NOT):
+                        raise Unsupported("look-around")
+                out.append(z3.Concat(sig, self.seq(alt, top=True), sig) if not any(o is sre_c.AT for o, _ in alt)
+                           else self._anchored_search(alt, sig))
+        return z3.Union(*out) if len(out) > 1 else out[0]
+
+    def _anchored_search(self, alt, sig):
+        """search() of an alternative that starts with ^ and/or ends with $ (no MULTILINE)."""
+        alt = list(alt)
+        pre = sig
+        post = sig
+        if alt and alt[0][0] is sre_c.AT and alt[0][1] in (sre_c.AT_BEGINNING, sre_c.AT_BEGINNING_STRING):
+            pre = z3.Re(z3.StringVal(""))
+            alt = alt[1:]
+        if alt and alt[-1][0] is sre_c.AT and alt[-1][1] in (sre_c.AT_END, sre_c.AT_END_STRING):
+            post = z3.Option(z3.Re(_char(10))) if alt[-1][1] is sre_c.AT_END else z3.Re(z3.StringVal(""))
+            alt = alt[:-1]
+        if self.flags & re.M:
+            raise Unsupported("MULTILINE")
+        return z3.Concat(pre, self.seq(alt), post)
 
     def group_language(self, g):
         """Over-approximation of what group g can capture (over all parses)."""
